@@ -87,8 +87,20 @@ def _degree_receivers(test):
     return recv
 
 
+def _is_ctrlpoints_seq(e, defs, depth=0):
+    """X.ctrlpoints, or a local name bound only to such (possibly through tuple()/list())"""
+    if isinstance(e, ast.Attribute) and e.attr == "ctrlpoints":
+        return True
+    if isinstance(e, ast.Call) and isinstance(e.func, ast.Name) and e.func.id in ("tuple", "list") and len(e.args) == 1:
+        return _is_ctrlpoints_seq(e.args[0], defs, depth)
+    if isinstance(e, ast.Name) and depth < 2:
+        vals = [v for v in defs.get(e.id, []) if not isinstance(v, tuple)]
+        return bool(vals) and len(vals) == len(defs.get(e.id, [])) and all(_is_ctrlpoints_seq(v, defs, depth + 1) for v in vals)
+    return False
+
+
 def _is_ctrlpoint(e, defs, depth=0):
-    if isinstance(e, ast.Subscript) and isinstance(e.value, ast.Attribute) and e.value.attr == "ctrlpoints":
+    if isinstance(e, ast.Subscript) and not isinstance(e.slice, ast.Slice) and _is_ctrlpoints_seq(e.value, defs):
         return True
     if isinstance(e, ast.Call) and isinstance(e.func, ast.Name) and e.func.id == "id" and e.args:
         return _is_ctrlpoint(e.args[0], defs, depth)
